@@ -6,6 +6,7 @@ the produced text with the spec readers (make / ninja expansion, then the sh fol
 arguments that were handed in.  Nothing here is ever counted as proved.
 """
 import io
+import os
 import itertools
 
 from pyvc.contract import Contract
@@ -240,6 +241,72 @@ class PathNames(Bounded):
         return True
 
 
+class PrerequisiteNames(Bounded):
+    """A rule written by the real Makefile class and run by the real GNU make: the prerequisite name (a source file
+    that exists, next to sibling files a glob pattern would also match) reaches the recipe as exactly that file
+    (`$<`), the target is built from it, is up to date afterwards and is rebuilt when that file changes."""
+    target = 'bfg9000/backends/make/syntax.py::Makefile.rule'
+    properties = ('C04',)
+    reason = 'behaviour of GNU make wildcard expansion on existing files: runtime contract with the real tool'
+    native_chunk = 2
+    NAMES = ['in?.txt', 'in*.txt', 'in[12].txt', 'in 1.txt', 'in#1.txt', 'in$1.txt', 'in%1.txt', "in'1.txt",
+             'in:1.txt', 'in|1.txt', 'd?/in.txt', 'in(1).txt', 'in&1.txt', 'in@1.txt', 'in!1.txt', 'in+1.txt',
+             'in{1}.txt', 'in,1.txt', 'in"1.txt']
+
+    def native_inputs(self, case, alphabet, maxlen, rng, extra=0):
+        for n in self.NAMES:
+            yield {'name': n}
+
+    def native_check(self, case, raw):
+        import shutil, subprocess, tempfile
+        name = raw['name']
+        top = tempfile.mkdtemp(prefix='pyvc_prereq_')
+        try:
+            src, b = top + '/src', top + '/b'
+            for f, text in ((name, 'WANTED'), ('in1.txt', 'sibling-1'), ('in2.txt', 'sibling-2'), ('inXY.txt', 'sibling-xy'),
+                            ('d1/in.txt', 'sibling-dir')):
+                fp = os.path.join(src, f)
+                os.makedirs(os.path.dirname(fp), exist_ok=True)
+                if f == name or not os.path.exists(fp):
+                    with open(fp, 'w') as fh:
+                        fh.write(text)
+            os.makedirs(b)
+            mk = msyn.Makefile('build.bfg')
+            mk.rule(target=Path('out.txt', Root.builddir), deps=[Path(name, Root.srcdir)],
+                    recipe=[['cp', msyn.qvar('<'), msyn.qvar('@')]])      # the way every bfg9000 rule names its files
+            buf = io.StringIO()
+            mk.write(buf)
+            text = buf.getvalue()
+            with open(b + '/Makefile', 'w') as fh:
+                fh.write('srcdir := %s\n' % src + text)
+            env = dict(os.environ)
+            env.pop('MAKEFLAGS', None)
+
+            def make():
+                r = subprocess.run(['make', '-C', b, '--no-print-directory', 'out.txt'], env=env, capture_output=True,
+                                   text=True, timeout=30)
+                return r.returncode, r.stdout + r.stderr
+            rc, out = make()
+            got = open(b + '/out.txt').read() if os.path.exists(b + '/out.txt') else None
+            rule = [l for l in text.splitlines() if l.startswith('out.txt:')]
+            if rc != 0 or got != 'WANTED':
+                return self.fail(case, raw, 'target_built_from_exactly_the_named_prerequisite', rule=rule, built=got, make=out[-300:])
+            rc, out = make()
+            if rc != 0 or 'cp ' in out:
+                return self.fail(case, raw, 'up_to_date_after_the_build', rule=rule, make=out[-300:])
+            with open(os.path.join(src, name), 'w') as fh:
+                fh.write('CHANGED')
+            t = os.stat(b + '/out.txt').st_mtime + 100
+            os.utime(os.path.join(src, name), (t, t))
+            rc, out = make()
+            got = open(b + '/out.txt').read()
+            if rc != 0 or got != 'CHANGED':
+                return self.fail(case, raw, 'change_of_the_named_prerequisite_is_noticed', rule=rule, built=got, make=out[-300:])
+            return True
+        finally:
+            shutil.rmtree(top, ignore_errors=True)
+
+
 class EnvLines(Bounded):
     """posix.global_env / local_env / join_lines, written by the ninja writer and executed by the real /bin/sh."""
     target = 'bfg9000/shell/posix.py::global_env'
@@ -302,4 +369,4 @@ class PosixSplit(Bounded):
 
 
 def registry():
-    return [MakeWriteArgs(), NinjaWriteArgs(), PathNames(), EnvLines(), PosixSplit()]
+    return [MakeWriteArgs(), NinjaWriteArgs(), PathNames(), PrerequisiteNames(), EnvLines(), PosixSplit()]
